@@ -38,12 +38,16 @@ type Tracer struct {
 	seen    map[string]int // hook census
 	univ    []MObj         // objects on which opaque filters are evaluated extensionally
 	late    int
+	runaway bool
 }
 
 type namedFilter struct {
 	f    filter.Filter
 	name string
 }
+
+// no scenario of the drivers comes near this many hook lines (the longest are about 60,000)
+const hookLineLimit = 400000
 
 var theTracer = &Tracer{seen: map[string]int{}}
 
@@ -63,6 +67,7 @@ func (t *Tracer) Begin(w *ndWriter, run string) {
 	t.counts = map[string]int{}
 	t.fnames = []namedFilter{{filter.All(), "all"}, {filter.Null(), "null"}}
 	t.active = true
+	t.runaway = false
 	t.late = 0
 	if t.seen == nil {
 		t.seen = map[string]int{}
@@ -310,6 +315,15 @@ func (t *Tracer) Hook(actor interface{}, ev string, args ...interface{}) {
 	t.seen[ev]++
 	if !t.active {
 		t.late++
+		return
+	}
+	if t.seq > hookLineLimit {
+		// a library goroutine logging without end (a hot loop): record it once, then keep only the harness' lines
+		if !t.runaway {
+			t.runaway = true
+			t.seq++
+			t.w.write2(fmt.Sprintf(`{"i":%d,"a":%q,"e":"runaway","last":%q,"t":%d}`, t.seq, t.nameOf(actor), ev, time.Since(t.t0).Microseconds()))
+		}
 		return
 	}
 	t.emit(t.nameOf(actor), ev, args)
